@@ -191,7 +191,7 @@ def workload(ctx, lentil):
                 otm = lentil.propagate_dft(chain(mono), du, shape=oshape, oversample=os_)
                 ots = lentil.propagate_dft(chain(segd), du, shape=oshape, oversample=os_)
                 _cmp(ctx, 'seg=mono:propagated', 'tilt-chain', 'segmented and monolithic description differ in a chain carrying tilt metadata',
-                     otm, ots, dict(desc, how=how), scale_tol=tol)
+                     otm, ots, dict(desc, how=how), scale_tol=None if tol is None else 32 * tol)   # shifted, sub-pixel windows
             except Exception as e:
                 ctx.check(False, 'seg=mono:propagated', f'tilt-chain|raises={type(e).__name__}', str(e), desc)
         # per-segment fitted tilts with a small propagation window: segment images land on different, chain-overlapping
